@@ -50,8 +50,9 @@ def confined : Nat → String → Bool
     match Generated.callers.find? (fun e => e.1 == fn) with
     | some (_, cs) => !cs.isEmpty && cs.all (fun c => c == fn || confined fuel c)
     | none =>
-      -- a closure inside a confined function runs where that function's caller put it: not assumed confined
-      false
+      -- a closure (not a `go` body: those are `$go`) written inside confined code: it is called from there, handed to a
+      -- helper that calls it (`updateStats(func…)`), or kept in `retryQueue` and run by the task goroutine later
+      fn.endsWith "$closure" && confined fuel (String.ofList (fn.toList.take (fn.length - 8)))
 
 /-- (function, field, why the access is ordered although the guard is not held) -/
 def exceptions : List (String × String × String) := [
